@@ -359,6 +359,10 @@ func (e *Enc) header() string {
 	fmt.Fprintf(&b, "(declare-datatypes ((Iface 0)) (((mkIface (i_tag Int) (i_ref Int) %s))))\n", strings.Join(pf, " "))
 	fmt.Fprintf(&b, "(define-fun mkI ((t Int) (r Int)) Iface (mkIface t r %s))\n", strings.Join(zeros, " "))
 	b.WriteString("(define-fun nilIface () Iface (mkI 0 0))\n")
+	e.nilLit = strings.TrimSpace(fmt.Sprintf("(mkIface 0 0 %s)", strings.Join(zeros, " ")))
+	if len(zeros) == 0 {
+		e.nilLit = "(mkIface 0 0)"
+	}
 	for i, k := range bk {
 		zs := append([]string{}, zeros...)
 		zs[i] = "x"
